@@ -129,6 +129,9 @@ pub fn worker(ctx: &Ctx, res: &mut ShardResult) {
     let (maxlen, _nr) = params(&ctx.tier);
     let mut idx = 0usize;
     for z in crate::zoo::core_zoo().iter() {
+        // `colm` is left out: its scanner asks for the column (TSLexer.get_column), which is a property of the document line,
+        // not of the included text, so the concatenated stand-alone text is a different input for it by design
+        if z.name == "colm" { continue; }
         let info = build_info(z);
         let mut parser = Parser::new();
         parser.set_language(&info.language).unwrap();
